@@ -42,3 +42,6 @@
 (declare-fun hint8 ((_ BitVec 8)) Bool)
 (declare-fun hint64 ((_ BitVec 64)) Bool)
 (declare-fun hintI (Int) Bool)
+; the storage key under which the compaction floor is kept (fmt.Sprintf("%s/compact_key", prefix)): opaque
+(declare-fun is_compact_key ((Array Int (_ BitVec 8)) Int Int) Bool)
+(declare-fun err_is (Iface Iface) Bool)
